@@ -280,4 +280,49 @@ MUTANTS = {
         checks=["C19"],
         edits=[("pycparser/__init__.py", "    return parser.parse(text, filename)", "    return parser.parse(text)")],
     ),
+    "C18-subscript-accept": dict(
+        what="']' of a subscript only accepted, not required",
+        checks=["C18"],
+        edits=[(P, '                sub = self._parse_expression()\n                self._expect("RBRACKET")', '                sub = self._parse_expression()\n                self._accept("RBRACKET")')],
+    ),
+    "C18-pphash-skipped": dict(
+        what="unknown preprocessor directives are skipped silently",
+        checks=["C18"],
+        edits=[(P, '        if tok.type == "PPHASH":\n            self._parse_pp_directive()\n            return []', '        if tok.type == "PPHASH":\n            self._advance()\n            while self._peek() is not None and self._peek().lineno == tok.lineno:\n                self._advance()\n            return []')],
+    ),
+    "C18-call-rparen-optional": dict(
+        what="')' closing an argument list is optional before ';'",
+        checks=["C18"],
+        edits=[(P, '                    args = self._parse_argument_expression_list()\n                    self._expect("RPAREN")', '                    args = self._parse_argument_expression_list()\n                    if self._peek_type() != "SEMI":\n                        self._expect("RPAREN")')],
+    ),
+    "C18-initlist-brace-optional": dict(
+        what="'}' closing an initializer list is optional at a ';'",
+        checks=["C18"],
+        edits=[(P, '            init_list = self._parse_initializer_list()\n            self._accept("COMMA")\n            self._expect("RBRACE")\n            return init_list', '            init_list = self._parse_initializer_list()\n            self._accept("COMMA")\n            if self._peek_type() != "SEMI":\n                self._expect("RBRACE")\n            return init_list')],
+    ),
+    "C18-backslash-ignored": dict(
+        what="a stray backslash is treated as white space by the lexer",
+        checks=["C18", "C09"],
+        edits=[(L, '                case " " | "\\t":\n                    self._pos += 1', '                case " " | "\\t" | "\\\\":\n                    self._pos += 1')],
+    ),
+    "C18-comment-skipped": dict(
+        what="// comments are skipped by the lexer instead of being reported",
+        checks=["C18", "C10"],
+        edits=[(L, '                case "#":\n                    if _line_pattern.match(text, self._pos + 1):', '                case "/" if text.startswith("//", self._pos):\n                    nl = text.find("\\n", self._pos)\n                    self._pos = n if nl < 0 else nl\n                case "#":\n                    if _line_pattern.match(text, self._pos + 1):')],
+    ),
+    "C17-paren-exprlist": dict(
+        what="a parenthesised assignment is wrapped in a one-element ExprList",
+        checks=["C17"],
+        edits=[(P, '            self._advance()\n            expr = self._parse_expression()\n            self._expect("RPAREN")\n            return expr', '            self._advance()\n            expr = self._parse_expression()\n            self._expect("RPAREN")\n            if isinstance(expr, c_ast.Assignment):\n                return c_ast.ExprList([expr], expr.coord)\n            return expr')],
+    ),
+    "C17-label-same-line": dict(
+        what="'name :' is only a label when the colon is on the same line as the name",
+        checks=["C17"],
+        edits=[(P, '            case "ID" if self._peek_type(2) == "COLON":', '            case "ID" if self._peek_type(2) == "COLON" and self._peek(2).lineno == self._peek().lineno:')],
+    ),
+    "C17-linemarker-eats-token": dict(
+        what="a linemarker with flags also swallows the first token of the next line",
+        checks=["C17", "C09"],
+        edits=[(L, "            pos += len(m.group(0))\n\n        success(pp_line, pp_filename)", "            pos += len(m.group(0))\n            line_end = min(n, line_end + 2)\n\n        success(pp_line, pp_filename)")],
+    ),
 }
